@@ -428,7 +428,10 @@ fn exec_command(command: Command, comms: &mut Comms, context: &mut Option<DoerCo
                 }
             };
 
+            #[cfg(rjrssync_verif)] verif_hooks::point("created");
             let r = f.write_all(&data);
+            #[cfg(rjrssync_verif)] let r = verif_hooks::after_write(r);
+            #[cfg(rjrssync_verif)] verif_hooks::point("written");
             if let Err(e) = r {
                 comms.send_response(Response::Error(format!("Error writing file contents to '{}': {e}", full_path.display())))?;
                 return Ok(true);
